@@ -210,6 +210,8 @@ def run(prog, tier):
     obs.extend(dtype_hazard_obligations(prog, "float-arithmetic", ['inference/gp/covariance.py', 'inference/gp/mean.py']))
     from .common import call_order_obligations
     obs.extend(call_order_obligations(prog, "arguments-in-order", ['inference/gp/covariance.py', 'inference/gp/mean.py']))
+    from .common import identity_memo_obligations
+    obs.extend(identity_memo_obligations(prog, "result-keyed-on-values", ['inference/gp/covariance.py', 'inference/gp/mean.py']))
 
     obs.extend(memo_obligations(prog, "cache-key", [c for b in ("CovarianceFunction", "MeanFunction") for c in [prog.cls(b)] + prog.subclasses(b)]))
 
@@ -659,9 +661,39 @@ def _composite(prog):
         ok = len(rets) == 1 and any(pmatch(rets[0], pt) is not None for pt in
                                     (f"sum(({elt} for _c, _s in zip(self.components, self.slices)))",
                                      f"sum([{elt} for _c, _s in zip(self.components, self.slices)])"))
+        shown = U(rets[0]) if rets else None
+        if not ok and len(rets) == 1 and isinstance(rets[0], ast.Name):
+            # the same sum written as an accumulation:  K = zeros(..) ;  for c, s in zip(A, B): K += c(.., theta[s]) ;  return K
+            acc = rets[0].id
+            loops = [l for l in fn.body if isinstance(l, ast.For) and len(l.body) == 1 and isinstance(l.body[0], ast.AugAssign)
+                     and isinstance(l.body[0].op, ast.Add) and U(l.body[0].target) == acc]
+            inits = [st for st in fn.body if isinstance(st, ast.Assign) and U(st.targets[0]) == acc]
+            zero = len(inits) == 1 and ((isinstance(inits[0].value, ast.Call) and U(inits[0].value.func) in ("zeros", "zeros_like"))
+                                        or (isinstance(inits[0].value, ast.Constant) and inits[0].value.value in (0, 0.0)))
+            others = [st for st in ast.walk(fn) if isinstance(st, (ast.Assign, ast.AugAssign)) and acc in
+                      (U(st.targets[0]) if isinstance(st, ast.Assign) else U(st.target)).split("[")[0].split(".")[:1]]
+            if len(loops) == 1 and zero and len(others) == 2 and isinstance(loops[0].target, ast.Tuple) and len(loops[0].target.elts) == 2:
+                lp = loops[0]
+                cn, sn_ = (U(e) for e in lp.target.elts)
+                it = rz.term(lp.iter, lp)
+                pair = pmatch(it, "zip(_A, _B)")
+                got_elt = U(lp.body[0].value)
+                want_elt = w.format(c=cn, s=sn_, t=params[-1], a=params[0] if len(params) > 1 else "", b=params[1] if len(params) > 1 else "")
+                if pair is None:
+                    shown = f"accumulation over `{U(it)}`"
+                elif (pair["_A"], pair["_B"]) != ("self.components", "self.slices"):
+                    shown = (f"accumulation over zip({pair['_A']}, {pair['_B']}): the slices in self.slices are laid out for self.components, "
+                             f"position by position - pairing them with another list gives a component the parameters of another one")
+                elif U(ast.parse(got_elt, mode='eval').body) != U(ast.parse(want_elt, mode='eval').body):
+                    shown = f"accumulated term `{got_elt}` is not `{want_elt}`"
+                else:
+                    ok = True
+            else:
+                raise AnalysisError(f"composite-structure: {qual(cc, fn)} returns `{acc}`, which is built by statements that are neither the sum "
+                                    f"over zip(self.components, self.slices) nor its accumulation loop - not decided")
         out.append(struct_ob("composite-structure", qual(cc, fn), ok,
-                             f"a sum of kernels must add each component evaluated on its own slice of theta: `{U(rets[0]) if rets else None}`",
-                             COV, fn.lineno))
+                             f"a sum of kernels must add each component evaluated on its own slice of theta: `{shown}`",
+                             COV, fn.lineno, tier="F" if isinstance(rets[0] if rets else None, ast.Name) else "S"))
     fn = cc.methods.get("covariance_and_gradients")
     th = fn.args.args[1].arg
     L = Layouts(fn, prog, cc.module, cc)
